@@ -6,4 +6,5 @@ func init() {
 	register(kvp.CachedAdapters()...)
 	register(kvp.MDBAdapters()...)
 	commands["crashrun"] = kvp.CmdCrashRun
+	commands["cachedconc"] = kvp.CmdCachedConc
 }
